@@ -45,6 +45,9 @@ SymTable ==
   @@ "fx.NewC" :> [made |-> FxPkg \o ".NewC", kind |-> "ptr"]  @@ "fx.NewD" :> [made |-> FxPkg \o ".NewD", kind |-> "ptr"]
   @@ "fx.NewZ" :> [made |-> FxPkg \o ".NewZ", kind |-> "ptr"]  @@ "fx.NewE" :> [made |-> FxPkg \o ".NewE", kind |-> "err"]
   @@ "fx.NewV" :> [made |-> FxPkg \o ".NewV", kind |-> "val"]
+  @@ "\"probe.test/fx\".NewA" :> [made |-> FxPkg \o ".NewA", kind |-> "ptr"]
+  @@ "probe.test/fx.NewA" :> [made |-> FxPkg \o ".NewA", kind |-> "ptr"]
+  @@ "\".\".NewA" :> [made |-> "..NewA", kind |-> "ptr"]
   @@ "NewA" :> [made |-> "..NewA", kind |-> "ptr"] @@ "NewB" :> [made |-> "..NewB", kind |-> "ptr"]
   @@ "NewC" :> [made |-> "..NewC", kind |-> "ptr"] @@ "NewD" :> [made |-> "..NewD", kind |-> "ptr"]
   @@ "NewZ" :> [made |-> "..NewZ", kind |-> "ptr"] @@ "NewE" :> [made |-> "..NewE", kind |-> "err"]
@@ -62,25 +65,37 @@ ValueTable ==
   (  "fx.Var" :> [kind |-> "global", id |-> 1] @@ "fx.Holder.Field" :> [kind |-> "global", id |-> 2]
   @@ "Var" :> [kind |-> "global", id |-> 3] @@ "Holder.Field" :> [kind |-> "global", id |-> 4]
   @@ "\".\".Var" :> [kind |-> "global", id |-> 3]
+  @@ "\"probe.test/fx\".Holder.Field" :> [kind |-> "global", id |-> 2] @@ "\"probe.test/fx\".Var" :> [kind |-> "global", id |-> 1]
+  @@ "&\"probe.test/fx\".S{}" :> [kind |-> "newptr", id |-> 0] @@ "\".\".S{}" :> [kind |-> "newval", id |-> 0]
+  @@ "&\".\".S{}" :> [kind |-> "newptr", id |-> 0] @@ "probe.test/fx.Var" :> [kind |-> "global", id |-> 1]
   @@ "&fx.S{}" :> [kind |-> "newptr", id |-> 0] @@ "&S{}" :> [kind |-> "newptr", id |-> 0]
   @@ "fx.S{}" :> [kind |-> "newval", id |-> 0] @@ "S{}" :> [kind |-> "newval", id |-> 0] )
 TypeTable ==          \* zero value of a type-only service
-  (  "*fx.T" :> "nilptr" @@ "*T" :> "nilptr" @@ "fx.T" :> "zeroval" @@ "T" :> "zeroval" )
+  (  "*fx.T" :> "nilptr" @@ "*T" :> "nilptr" @@ "fx.T" :> "zeroval" @@ "T" :> "zeroval"
+  @@ "*\"probe.test/fx\".T" :> "nilptr" @@ "\"probe.test/fx\".T" :> "zeroval" @@ "*\".\".T" :> "nilptr" @@ "\".\".T" :> "zeroval"
+  @@ "*probe.test/fx.T" :> "nilptr" )
 
 (* parameter functions: registered name -> what it is *)
 FnTable ==
   (  "fn"    :> [made |-> FxPkg \o ".Fn",    kind |-> "str"]
   @@ "fnInt" :> [made |-> FxPkg \o ".FnInt", kind |-> "int"]
   @@ "fnE"   :> [made |-> FxPkg \o ".FnE",   kind |-> "err"]
-  @@ "todo"  :> [made |-> "todo", kind |-> "todo"] )
+  @@ "todo"  :> [made |-> "todo", kind |-> "todo"]
+  @@ "env"   :> [made |-> "env", kind |-> "envdefault"] @@ "envInt" :> [made |-> "envInt", kind |-> "envintdefault"] )
 
 GoType(kind) == CASE kind = "int" -> "int" [] kind = "uint64" -> "uint64" [] kind = "float" -> "float64"
                   [] kind = "bool" -> "bool" [] OTHER -> "string"
 
 -----------------------------------------------------------------------------
 (* Container state *)
-NewState(cfg) == [cfg |-> cfg, shared |-> Empty, bags |-> Empty, bag |-> Empty, pcache |-> Empty,
-                  heap |-> Globals, cnt |-> Empty]
+EmptyEnv == [syms |-> Empty, vals |-> Empty, fns |-> Empty, globals |-> <<>>]
+NewStateEnv(cfg, env) == [cfg |-> cfg, shared |-> Empty, bags |-> Empty, bag |-> Empty, pcache |-> Empty,
+                          heap |-> Globals \o env.globals, cnt |-> Empty, env |-> env]
+NewState(cfg) == NewStateEnv(cfg, EmptyEnv)
+(* what a reference text denotes: the family's own environment first, then the fixed tables *)
+SymOf(st, x) == IF Has(st.env.syms, x) THEN st.env.syms[x] ELSE SymTable[x]
+ValOf(st, x) == IF Has(st.env.vals, x) THEN st.env.vals[x] ELSE ValueTable[x]
+FnOf(st, x)  == IF Has(st.env.fns, x) THEN st.env.fns[x] ELSE FnTable[x]
 
 Alloc(st, body) == [st EXCEPT !.heap = Append(@, body)]
 NewId(st) == Len(st.heap) + 1
@@ -109,10 +124,12 @@ EvalChunk(st, c) ==
     [] c.k = "pct"  -> Ok(VStr("%"), st)
     [] c.k = "ref"  -> GetParamV(st, c.v)
     [] c.k = "fn"   ->
-         LET f == FnTable[c.v]  st1 == Bump(st, "fn:" \o f.made) IN
+         LET f == FnOf(st, c.v)  st1 == Bump(st, "fn:" \o f.made) IN
          CASE f.kind = "str"  -> Ok(VStr(f.made \o "(" \o c.a \o ")"), st1)
            [] f.kind = "int"  -> Ok(VLit("int", "40"), st1)
            [] f.kind = "err"  -> IF c.a = "\"fail\"" THEN Err("fn:" \o c.v, st1) ELSE Ok(VStr(f.made \o "(" \o c.a \o ")"), st1)
+           [] f.kind = "envdefault"    -> Ok(VStr("dflt"), st)              \* family convention: %env("VERIF_UNSET", "dflt")%
+           [] f.kind = "envintdefault" -> Ok(VLit("int", "77"), st)         \*                    %envInt("VERIF_UNSET", 77)%
            [] f.kind = "todo" -> Err(IF c.a = "" THEN "parameter todo" ELSE "todo:" \o c.a, st)
 
 EvalChunks(st, ch, i, acc) ==
@@ -133,7 +150,7 @@ GetParamV(st, p) ==
 
 (* -- arguments ------------------------------------------------------------------------- *)
 ResolveValue(st, expr) ==
-  LET e == ValueTable[expr] IN
+  LET e == ValOf(st, expr) IN
   CASE e.kind = "global" -> Ok(VObj(e.id), st)
     [] e.kind = "newptr" -> Ok(VObj(NewId(st)), Alloc(st, Body("", <<>>)))
     [] e.kind = "newval" -> Ok(VObjVal(Body("", <<>>)), st)
@@ -217,13 +234,13 @@ Decorate(st, s, cur, i, tags) ==
        ELSE LET a == ArgsOfSeq(st, d.args) IN
             IF ~a.ok THEN Err(a.err, a.st)
             ELSE LET id == NewId(a.st)
-                     b == [Body(SymTable[d.fn].made, a.vals) EXCEPT !.payload = <<[tag |-> d.tag, id |-> s, svc |-> cur]>>]
+                     b == [Body(SymOf(a.st, d.fn).made, a.vals) EXCEPT !.payload = <<[tag |-> d.tag, id |-> s, svc |-> cur]>>]
                  IN Decorate(Alloc(a.st, b), s, VObj(id), i + 1, tags)
 
 (* -- services -------------------------------------------------------------------------- *)
 Create(st, svc) ==
   IF IsSet(svc.ctor) THEN
-       LET a == ArgsOfSeq(st, svc.args)  sym == SymTable[svc.ctor] IN
+       LET a == ArgsOfSeq(st, svc.args)  sym == SymOf(st, svc.ctor) IN
        IF ~a.ok THEN Err(a.err, a.st)
        ELSE IF sym.kind = "err" /\ Len(a.vals) > 0 /\ IsFail(a.vals[1]) THEN Err("NewE fails", a.st)
        ELSE IF sym.kind = "val" THEN Ok(VObjVal(Body(sym.made, a.vals)), a.st)
